@@ -16,8 +16,8 @@ def main(tier):
         '4 naming conventions, with and without inactive boundary blocks; g -> fromgeo -> rectgeo -> (g\', map) -> fromgeo(g\', map) compared for spacings, position, surfaces, atmosphere, names, volumes, connections; '
         'repeated after extra-precision and standard data-file round trips',
         trust=('the forward contracts of C04 (block top / volume / centre) that rectgeo inverts', 'pyvc heap model of the real geometry and grid; numpy nanargmin / nanargmax: an index of an extremal non-NaN element; sets of objects iterate in creation order', 'z3'),
-        assume=('the original geometry is not rotated (match_position then computes asin(1) = pi/2 exactly, angle 0 and the identity rotation; pi is one real constant, sin(0) = 0, cos(0) = 1); rotated originals are bounded',
-                'whole-method obligations: 8 shapes (2x1x2 .. 3x2x2, 3 atmosphere types, 4 conventions, 0 or 1 symbolic surface keeping at least two layers) with symbolic spacings between layer_snap = 0.1 and 1e6, atmosphere volume >= 1e25; a one-layer column reproduces a known finding',),
+        assume=('the original geometry is rotated by a multiple of 90 degrees (0, 90, 180, 270) about a symbolic centre, with its permeability angle turned with it: asin(0), asin(1), sin and cos are exact there (pi is one real constant); other angles are bounded',
+                'whole-method obligations: 11 instances (2x1x2 .. 3x2x2, 3 atmosphere types, 4 conventions, 0 or 1 symbolic surface keeping at least two layers, 3 of them rotated) with symbolic spacings between layer_snap = 0.1 and 1e6, atmosphere volume >= 1e25; a one-layer column reproduces a known finding',),
         extra=[(c18, c18.programs(tier))],
-        explanation='clause -> evidence: the real t2grid.rectgeo (spacing walks, origin and top-block search, block map, surface recovery, layer snapping) run by the executor on the grid fromgeo() builds from a real rectangular geometry with symbolic origin returns the same layer thicknesses, the same column rectangles and areas, the same surface elevations, the requested atmosphere arrangement and a block-name map under which fromgeo() of the reconstructed geometry reproduces block names, volumes and connection areas / distances: and the same position (origin in all three coordinates) and orientation (angle 0): PROVED for all origins, spacings and surfaces of the 8 shapes under assume. The forward leaves shared with C04 are proved (block top, volume, centre, telescoping column volume). The inversion of rotated geometries, larger grids, boundary blocks and data-file round trips is checked on 400 (quick) / 4000 (thorough) '
+        explanation='clause -> evidence: the real t2grid.rectgeo (spacing walks, origin and top-block search, block map, surface recovery, layer snapping) run by the executor on the grid fromgeo() builds from a real rectangular geometry with symbolic origin returns the same layer thicknesses, the same column rectangles and areas, the same surface elevations, the requested atmosphere arrangement and a block-name map under which fromgeo() of the reconstructed geometry reproduces block names, volumes and connection areas / distances: and the same position (every column on the corner points of the original column, top elevation) and orientation (angle 0, -90, -180, -270 modulo 360): PROVED for all origins, spacings and surfaces of the instances under assume. The forward leaves shared with C04 are proved (block top, volume, centre, telescoping column volume). The inversion of geometries rotated by other angles, larger grids, boundary blocks and data-file round trips is checked on 400 (quick) / 4000 (thorough) '
                     'generated rectangular geometries per run, in memory and after data-file round trips. 4 known findings (single block in x, one-layer columns, side boundary blocks, top layer not reached).')
